@@ -2,7 +2,7 @@
    the first top-level member whose decoded name equals the key, else the end.
    Only statements, each closed by [exact]. *)
 From Coq Require Import NArith List.
-From LCP Require Import Base.CheckedMem Gen.Repo_json Util.Json Util.JsonSpec Util.JsonRepo Util.JsonCorrect.
+From LCP Require Import Base.CheckedMem Gen.Repo_json Util.Json Util.JsonSpec Util.JsonRepo Util.JsonRfc Util.JsonCorrect.
 Import ListNotations.
 
 (* skip_value lands exactly behind the rendering of any well-formed value (any nesting, any
@@ -31,3 +31,27 @@ Theorem C17_json_find_correct :
   json_find_c (lead ++ render (JObj w ms) ++ trail) key = Ok (find_spec lead (JObj w ms) trail key).
 Proof. exact json_find_correct. Qed.
 Print Assumptions C17_json_find_correct.
+
+(* the same for every object valid by the strict RFC 8259 grammar (number syntax, control
+   characters escaped, four hex digits after \u): rfc_valid implies wf *)
+Theorem C17_json_find_correct_rfc8259 :
+  forall lead w ms trail key,
+  is_wsl lead = true -> rfc_valid (JObj w ms) = true -> no_nul key ->
+  json_find_c (lead ++ render (JObj w ms) ++ trail) key = Ok (find_spec lead (JObj w ms) trail key).
+Proof. exact json_find_correct_rfc. Qed.
+Print Assumptions C17_json_find_correct_rfc8259.
+
+(* what find_spec is: the offset at which the rendering of the value of the FIRST member whose
+   decoded name is the key begins, or - when no member has that name - the total length *)
+Theorem C17_json_find_spec_meaning :
+  forall lead w ms trail key,
+  let text := lead ++ render (JObj w ms) ++ trail in
+  let o := find_spec lead (JObj w ms) trail key in
+  (exists before m after rest,
+      ms = before ++ m :: after /\
+      Forall (fun x => decode_name (member_name x) <> Some key) before /\
+      decode_name (member_name m) = Some key /\
+      skipn o text = render (member_value m) ++ rest)
+  \/ (Forall (fun x => decode_name (member_name x) <> Some key) ms /\ o = length text).
+Proof. exact find_spec_meaning. Qed.
+Print Assumptions C17_json_find_spec_meaning.
